@@ -176,7 +176,8 @@ theorem step_sameOuter (rn : Runner) (hrn : Preserves rn) (ctxVars : List (Strin
     split at h
     · rename_i st1 out1 hc
       simp at h; obtain ⟨rfl, _, _⟩ := h
-      exact SameOuter.of_frames_eq (callMacroWith_frames rn ctxVars fuelA st n args _ st1 out1 hc)
+      have hf := callMacroWith_frames rn ctxVars fuelA { st with sites := st.sites ++ [st.frames] } n args _ st1 out1 hc
+      exact SameOuter.of_frames_eq hf
     · simp at h
   | callerOut =>
     simp only [step] at h
@@ -295,7 +296,7 @@ theorem scoped_no_leak (ctxVars : List (String × Val)) (fuel : Nat) (st st' : S
     split at h
     · rename_i st1 out1 hc
       simp at h; obtain ⟨rfl, _, _⟩ := h
-      exact callMacroWith_frames _ ctxVars fuel st n a _ st1 out1 hc
+      exact callMacroWith_frames _ ctxVars fuel { st with sites := st.sites ++ [st.frames] } n a _ st1 out1 hc
     · simp at h
   · simp only [step] at h
     split at h
